@@ -170,6 +170,12 @@ def unit_cases():
                      0.0 * units.mm]))
         out.append((how, units.fg, 0 * units.fg,
                     [1 * units.pg, 0.5 * units.fg, 3 * units.ng]))
+    # _units declared explicitly, the default written in ANOTHER compatible
+    # unit: the declared units win
+    out.append(('_units', units.um, 0.0015 * units.mm,
+                [2 * units.mm, 500 * units.nm, 0.0 * units.um]))
+    out.append(('_units', units.mg, 1 * units.g,
+                [5 * units.mg, 1 * units.ug]))
     return out
 
 
